@@ -118,10 +118,11 @@ def run(ctx):
         a = wr.args(c)
         fmt = str_arg(wr, a[1])
         conv = conversions(fmt)
-        args = [wr.canon(x, subst=False) for x in a[3:]]
-        ok = conv[:3] == ["s", "d", "d"] and conv[4] == "s" and args[0] == "tl->from_state" and args[1] == "tl->to_state" and "logs2prob" in args[2]
+        args = [wr.canon(x) for x in a[3:]]      # hoisted temporaries read as what they hold
+        TL = args[0][:-len("->from_state")] if args[0].endswith("->from_state") else None
+        ok = conv[:3] == ["s", "d", "d"] and conv[4] == "s" and TL is not None and args[1] == TL + "->to_state" and (TL + "->logs2prob") in args[2]
         ctx.check(w2, ok, key(wr, "field-order"), wr.where(c), "transition written as format %r with (%s)" % (fmt, ", ".join(args)))
-        ctx.check(w2, re.match(r"^\(\(tl->wid < 0\) \? \"\" : ", args[3]) is not None and "tl->wid" in args[3][20:], key(wr, "null-word"), wr.where(c), "word field is `%s`: a null arc must be written without a word, a word arc with its own word" % args[3])
+        ctx.check(w2, TL is not None and args[3].startswith('((%s->wid < 0) ? "" : ' % TL) and (TL + "->wid") in args[3][len(TL) + 20:], key(wr, "null-word"), wr.where(c), "word field is `%s`: a null arc must be written without a word, a word arc with its own word" % args[3])
     # reader side: i, j, p in order of nextword calls
     seq = []
     for s in paths.stores(rd):
@@ -195,11 +196,22 @@ def run(ctx):
     if tc:
         c = tc[0]
         a = wr.args(c)
+        def deep(n_):
+            """the expression a printed value stands for: through casts and through locals with one definition"""
+            seen_ = 0
+            n_ = wr.strip(n_)
+            while wr.k(n_) == "DeclRef" and wr.nodes[n_].get("ref") == "local" and seen_ < 6:
+                v_ = wr.rd.unique_def_value(n_)
+                if v_ is None:
+                    break
+                n_ = wr.strip(v_)
+                seen_ += 1
+            return n_
         pe = a[5]
-        call = wr.strip(pe)
+        call = deep(pe)
         ok = wr.k(call) == "Call" and wr.nodes[call].get("callee") == "logmath_exp"
         if ok:
-            arg = wr.args(call)[1]
+            arg = deep(wr.args(call)[1])
             form = wr.canon(arg, subst=False, casts=True)
             # division must be floating: (int)( (float)logs2prob / lw )
             divs = [i for i in wr.walk(arg) if wr.k(i) == "Bin" and wr.nodes[i]["op"] == "/"]
